@@ -247,6 +247,68 @@ def op_cli_pf(t):
     return "%s ; %s" % (out, lib(compute))
 
 
-for name, fn in [("cli", op_cli), ("cli_shift", op_cli_shift), ("cli_pf", op_cli_pf), ("cli_diff", op_cli_diff), ("cli_rec", op_cli_rec),
+def op_cli_now(t):
+    """cli_now md utc n tz keyword noffsets off... : the command line with no argument (keyword `none`) or `now`, the
+    clock stopped at Unix time n in a local zone tz seconds west of UTC ; the library's own computation: the point n
+    seconds after the epoch, in UTC when --utc is given or the local offset is zero (printed with Z), else in the
+    local offset (printed with +hh:mm), shifted by the offsets"""
+    from metomi.isodatetime import datetimeoper, data as datamod, timezone as tzmod
+    from metomi.isodatetime.dumpers import TimePointDumper
+    md = t.next()
+    utc, n, tz = t.z(), t.z(), t.z()
+    keyword = t.next()
+    k = t.z()
+    offs = [dec(t.next()) for _ in range(k)]
+    argv = ["--calendar=" + MODEFLAG[md]] + (["--utc"] if utc else []) + (["now"] if keyword == "now" else []) + \
+        ["--offset=" + o for o in offs]
+    saved = datetimeoper.now2point
+    datetimeoper.now2point = lambda: datamod.get_timepoint_from_seconds_since_unix_epoch(n)
+    try:
+        out = with_fake_time(tz, tz, 0, 0, lambda: run_cli(argv))
+    finally:
+        datetimeoper.now2point = saved
+    impl.set_mode(md)
+
+    def compute():
+        h, m = with_fake_time(tz, tz, 0, 0, tzmod.get_local_time_zone)
+        p = datamod.get_timepoint_from_seconds_since_unix_epoch(n, utc=True)
+        z = utc or (h == 0 and m == 0)
+        if not utc:
+            p = p.to_time_zone(datamod.TimeZone(hours=h, minutes=m))
+        return TimePointDumper().dump(_lib_shift(p, offs), "CCYY-MM-DDThh:mm:ssZ" if z else "CCYY-MM-DDThh:mm:ss+hh:mm")
+    return "%s ; %s" % (out, lib(compute))
+
+
+def op_cli_total(t):
+    """cli_total unit text: `--as-total=unit <duration>` ; the duration's seconds divided by the unit, as the library
+    computes them"""
+    unit, text = t.next(), dec(t.next())
+    out = run_cli(["--as-total=" + unit, text])
+
+    def compute():
+        d = parsers.DurationParser().parse(text)
+        return str(d.get_seconds() / {"S": 1, "M": 60, "H": 3600}[unit.upper()])
+    return "%s ; %s" % (out, lib(compute))
+
+
+def op_cli_stdin(t):
+    """cli_stdin nitems item... opt... : the items read from standard input (`-`) ; the same items as arguments"""
+    import sys
+    k = t.z()
+    items = [dec(t.next()) for _ in range(k)]
+    opts = []
+    while not t.done():
+        opts.append(dec(t.next()))
+    saved = sys.stdin
+    sys.stdin = io.StringIO("\n".join(items) + "\n")
+    try:
+        a = run_cli(["-"] + opts)
+    finally:
+        sys.stdin = saved
+    return "%s ; %s" % (a, run_cli(items + opts))
+
+
+for name, fn in [("cli", op_cli), ("cli_shift", op_cli_shift), ("cli_pf", op_cli_pf), ("cli_now", op_cli_now),
+                 ("cli_total", op_cli_total), ("cli_stdin", op_cli_stdin), ("cli_diff", op_cli_diff), ("cli_rec", op_cli_rec),
                  ("cli_diff_off", op_cli_diff_off), ("cli_diff_fmt", op_cli_diff_fmt)]:
     impl.register(name, fn)
